@@ -5,16 +5,18 @@ use wow_mpq::{Archive, ArchiveBuilder, ListfileOption};
 
 struct World { path: std::path::PathBuf, names: Vec<String>, present: Vec<bool>, seq: Vec<Option<Vec<u8>>>, _dir: tempfile::TempDir }
 
-fn build(rng: &mut Rng) -> World {
-    let dir = tempfile::tempdir().expect("tmp");
+fn build(rng: &mut Rng) -> World { let dir = tempfile::tempdir().expect("tmp"); build_at(rng, dir, 0) }
+
+/// generation g > 0: same path, same names, different bytes, and a different set of absent names
+fn build_at(rng: &mut Rng, dir: tempfile::TempDir, g: usize) -> World {
     let path = dir.path().join("par.mpq");
     let mut b = ArchiveBuilder::new().listfile_option(ListfileOption::Generate);
     let mut names = vec![]; let mut present = vec![];
     for i in 0..48 {
         let name = format!("Data\\Sub{}\\File_{:02}.txt", i % 3, i);
-        let there = i % 6 != 5;
+        let there = (i + g) % 6 != 5;
         if there { let len = match i % 5 { 0 => 0, 1 => 10, 2 => 5000, 3 => 70000, _ => rng.range(1, 3000) as usize };
-            let data: Vec<u8> = (0..len).map(|j| ((j / 7 + i) % 251) as u8).collect(); b = b.add_file_data(data, &name); }
+            let data: Vec<u8> = (0..len).map(|j| ((j / 7 + i + 13 * g) % 251) as u8).collect(); b = b.add_file_data(data, &name); }
         names.push(name); present.push(there);
     }
     b.build(&path).expect("build");
@@ -85,6 +87,22 @@ pub fn run(ctx: &mut Ctx) {
         check(ctx, &w, &what, &idx, &sp, got, mode, skip, eff);
         ctx.out.stat(&format!("c09.{}.{}", if len > 1000 { "batched" } else { "unbatched" }, if skip { "skip" } else { "strict" }));
     } } } } }
+    // requests longer than 5000 names take their own splitting path: lengths that do not divide evenly among 2 x threads slices
+    if !ctx.thorough {
+        for &(len, t, batch) in &[(5001usize, 4usize, 100usize), (5003, 3, 1), (5007, 8, 64)] { for skip in [false, true] { for missing in [0u64, 3] {
+            let mut rng = ctx.rng.clone();
+            let idx = req_list(&mut rng, &w, len, missing);
+            let sp: Vec<String> = idx.iter().map(|i| spelled(&mut rng, &w.names[*i])).collect();
+            ctx.rng = rng;
+            let refs: Vec<&str> = sp.iter().map(|s| s.as_str()).collect();
+            let cfg = ParallelConfig::new().threads(t).batch_size(batch).skip_errors(skip);
+            let got = extract_with_config(&w.path, &refs, cfg).map(|v| v.into_iter().map(|(n, r)| (n, r.map_err(|e| e.to_string()))).collect()).map_err(|e| e.to_string());
+            let eff = batch.max(len / (t * 2));
+            ctx.out.case(&format!("c09eff {} {} {}", len, batch, t), &eff.to_string());
+            check(ctx, &w, &format!("extract_with_config len={len} threads={t} batch={batch} skip={skip} missing={missing}"), &idx, &sp, got, "b", skip, eff);
+            ctx.out.stat("c09.over5000");
+        } } }
+    }
     // ParallelArchive methods (strict semantics)
     let pa = ParallelArchive::open(&w.path).expect("open parallel");
     for &len in &[0usize, 1, 5, 40, 300] { for missing in [0u64, 2] { for batch in [1usize, 3, 7, 1000] {
@@ -111,6 +129,31 @@ pub fn run(ctx: &mut Ctx) {
     for i in [0usize, 7, 12] { let r = wow_mpq::parallel::extract_from_multiple_archives(&paths, &w.names[i]);
         match r { Ok(v) => ctx.out.oracle(v.len() == 3 && v.iter().all(|(_, d)| Some(d) == w.seq[i].as_ref()), "parallel-differs-from-sequential", &format!("extract_from_multiple_archives {}", w.names[i])),
             Err(e) => ctx.out.oracle(w.seq[i].is_none(), "parallel-call-fails-unexpectedly", &format!("extract_from_multiple_archives: {e}")) } }
+    // the archive at the same path is replaced and extracted again in the same process: nothing a worker thread kept from
+    // the first extraction (handles, parsed tables) may show through
+    {
+        let World { path: _, names: _, present: _, seq: _, _dir } = w;
+        let mut rng = ctx.rng.clone();
+        let w2 = build_at(&mut rng, _dir, 1);
+        ctx.rng = rng;
+        let pa2 = ParallelArchive::open(&w2.path).expect("open parallel, second generation");
+        for rep in 0..3 {
+            let idx: Vec<usize> = (0..w2.names.len()).filter(|i| w2.present[*i]).collect();
+            let sp: Vec<String> = idx.iter().map(|i| w2.names[*i].clone()).collect();
+            let refs: Vec<&str> = sp.iter().map(|s| s.as_str()).collect();
+            let g1 = pa2.extract_files_parallel(&refs).map(|v| v.into_iter().map(|(n, d)| (n, Ok(d))).collect()).map_err(|e| e.to_string());
+            check(ctx, &w2, &format!("second generation at the same path, extract_files_parallel (rep {rep})"), &idx, &sp, g1, "u", false, 1);
+            let g3 = pa2.process_files_parallel(&refs, |n, d| Ok((n.to_string(), d))).map(|v| v.into_iter().map(|(n, d)| (n, Ok(d))).collect()).map_err(|e| e.to_string());
+            check(ctx, &w2, &format!("second generation at the same path, process_files_parallel (rep {rep})"), &idx, &sp, g3, "u", false, 1);
+            let cfg = ParallelConfig::new().threads(4).batch_size(7).skip_errors(true);
+            let all: Vec<usize> = (0..w2.names.len()).collect();
+            let spa: Vec<String> = all.iter().map(|i| w2.names[*i].clone()).collect();
+            let refa: Vec<&str> = spa.iter().map(|s| s.as_str()).collect();
+            let g4 = extract_with_config(&w2.path, &refa, cfg).map(|v| v.into_iter().map(|(n, r)| (n, r.map_err(|e| e.to_string()))).collect()).map_err(|e| e.to_string());
+            check(ctx, &w2, &format!("second generation at the same path, extract_with_config (rep {rep})"), &all, &spa, g4, "u", true, 7);
+            ctx.out.stat("c09.second_generation");
+        }
+    }
     stop.store(true, std::sync::atomic::Ordering::Relaxed);
     for b in burners { let _ = b.join(); }
 }
